@@ -4244,6 +4244,11 @@ mod tests {
 
 #[cfg(feature = "verif-hooks")]
 impl Connection {
+    /// The peer-issued connection ID currently used as destination (cheap; for per-datagram oracles)
+    pub fn verif_remote_cid(&self) -> ConnectionId {
+        self.rem_cids.active()
+    }
+
     /// Read-only snapshot of internal state for an external verification harness
     pub fn verif_probe(&self) -> crate::verif::VerifProbe {
         let data = &self.spaces[SpaceId::Data];
